@@ -81,6 +81,50 @@ inline Expect expectScalar(const Val& v, K t, bool ovThrow, bool mmThrow) {
 	return e;
 }
 
+// Text-carrying formats (XML element text, CSV cells): the document holds a lexical value only.
+// What a typed target may receive from the text `t` (C04/C05 semantics, numeric literal grammar of C16).
+inline Expect expectFromText(const std::string& t, K k, bool ovThrow, bool mmThrow) {
+	Expect e;
+	const unsigned ovOut = ovThrow ? ThrowOverflow : NotLoaded, mmOut = mmThrow ? ThrowMismatch : NotLoaded;
+	auto exact = [&](Val x) { e.allowed |= Exact; e.exact = std::move(x); };
+	if (k == sv::Str) { exact(Val::str(t)); return e; }
+	if (k == sv::Nil || k == sv::Bin || k == sv::Ts) { e.allowed = mmOut | NotLoaded; return e; }
+	size_t i = 0; while (i < t.size() && (t[i] == ' ' || t[i] == '\t')) ++i;
+	std::string body = t.substr(i);
+	bool neg = !body.empty() && body[0] == '-'; size_t d0 = neg ? 1 : 0, d1 = d0;
+	while (d1 < body.size() && body[d1] >= '0' && body[d1] <= '9') ++d1;
+	const bool hasDigits = d1 > d0;
+	if (k == sv::Bool) {
+		std::string low; for (char ch : body) low.push_back(static_cast<char>(ch >= 'A' && ch <= 'Z' ? ch + 32 : ch));
+		if (low.rfind("true", 0) == 0) { exact(Val::boolean(true)); return e; }
+		if (low.rfind("false", 0) == 0) { exact(Val::boolean(false)); return e; }
+		if (!neg && hasDigits) { if (d1 - d0 == 1 && (body[d0] == '0' || body[d0] == '1')) exact(Val::boolean(body[d0] == '1')); else e.allowed = ovOut | mmOut; return e; }
+		e.allowed = mmOut; return e;
+	}
+	if (sv::isInt(k)) {
+		if (!hasDigits) { e.allowed = mmOut; return e; }
+		if (d1 + 1 < body.size() + 0 && body[d1] == '.' && d1 + 1 < body.size() && body[d1 + 1] >= '0' && body[d1 + 1] <= '9') { e.allowed = mmOut; return e; }   // fractional literal for an integer target
+		i128 v = 0; bool big = false;
+		for (size_t j = d0; j < d1; ++j) { v = v * 10 + (body[j] - '0'); if (v > (static_cast<i128>(1) << 70)) { big = true; break; } }
+		if (neg) v = -v;
+		if (!big && intFits(v, k)) exact(Val::integer(v)); else e.allowed = ovOut;
+		if (neg && !sv::isSigned(k)) e.allowed |= mmOut | ovOut;   // "-1" for an unsigned target: from_chars reports invalid_argument, a range error is equally acceptable
+		return e;
+	}
+	// floating targets: glibc strtod on the literal prefix
+	if (!hasDigits && !(d0 < body.size() && body[d0] == '.')) {
+		// inf / nan spellings are accepted by from_chars; the statement leaves them open
+		e.allowed = mmOut | Exact | Nearest; char* end = nullptr; double dv = strtod(body.c_str(), &end);
+		if (end == body.c_str()) { e.allowed = mmOut; return e; }
+		e.exact = k == sv::F32 ? Val::flt(static_cast<float>(dv)) : Val::dbl(dv); e.nearest = e.exact; return e;
+	}
+	char* end = nullptr; double dv = strtod(body.c_str(), &end);
+	if (k == sv::F64) { if (std::isinf(dv)) e.allowed = ovOut; else exact(Val::dbl(dv)); return e; }
+	float fv = strtof(body.c_str(), &end);
+	if (std::isinf(fv)) e.allowed = ovOut; else exact(Val::flt(fv));
+	return e;
+}
+
 inline bool sameScalar(const Val& a, const Val& b) {
 	if (a.k != b.k) return false;
 	if (a.k == Val::F32) { float x, y; std::memcpy(&x, &a.f32, 4); std::memcpy(&y, &b.f32, 4); return (std::isnan(x) && std::isnan(y)) || a.f32 == b.f32; }
@@ -90,8 +134,20 @@ inline bool sameScalar(const Val& a, const Val& b) {
 
 inline bool canaryIntact(const Node& n) { Node c; c.k = n.k; c.canary(); Node m = n; m.loaded = false; m.unsupported = false; return c.toVal().dump() == m.toVal().dump(); }
 
+inline std::string textOf(const Val& v) {   // lexical form used by the reference emitters (harness/typed_load.hpp)
+	switch (v.k) {
+	case Val::Bool: return v.b ? "true" : "false";
+	case Val::Int: return ref::i128str(v.i);
+	case Val::F32: { char b[64]; float f; std::memcpy(&f, &v.f32, 4); snprintf(b, sizeof b, "%.9g", static_cast<double>(f)); std::string r = b; if (r.find_first_of(".eEni") == std::string::npos) r += ".0"; return r; }
+	case Val::F64: { char b[64]; snprintf(b, sizeof b, "%.17g", v.asDouble()); std::string r = b; if (r.find_first_of(".eEni") == std::string::npos) r += ".0"; return r; }
+	case Val::Str: return v.s;
+	default: return "";
+	}
+}
+
 struct Checker {
 	bool ovThrow, mmThrow;
+	bool textSource = false;                   // XML/CSV: scalars are carried as text
 	std::vector<std::string> complaints;       // after a successful load
 	unsigned throwsAllowed = 0;                // union over all nodes (ThrowOverflow|ThrowMismatch)
 	bool mustThrow = false;                    // some node allows only throwing outcomes
@@ -156,7 +212,10 @@ struct Checker {
 			if (allBytes) { if (verify && n.loaded && std::string(n.bin.begin(), n.bin.end()) != bytes) complaints.push_back(path + ": byte container loaded " + n.toVal().dump() + " from " + doc->dump()); if (mmThrow) throwsAllowed |= ThrowMismatch; return; }
 			throwsAllowed |= ThrowMismatch | ThrowOverflow; return;   // element-level outcome, judged leniently
 		}
-		Expect e = expectScalar(*doc, n.k, ovThrow, mmThrow);
+		Expect e;
+		if (textSource && (doc->k == Val::Arr || doc->k == Val::Map)) e.allowed = NotLoaded | (mmThrow ? ThrowMismatch : 0u);   // element with children has no text: treated as null or as a mismatch
+		else if (textSource && doc->k != Val::Nil) e = expectFromText(doc->k == Val::Str ? doc->s : textOf(*doc), n.k, ovThrow, mmThrow);
+		else e = expectScalar(*doc, n.k, ovThrow, mmThrow);
 		throwsAllowed |= e.allowed & (ThrowMismatch | ThrowOverflow);
 		if (!(e.allowed & (Exact | NotLoaded | Nearest))) mustThrow = true;
 		if (!(e.allowed & (Exact | Nearest)) || (e.allowed & (ThrowMismatch | ThrowOverflow | NotLoaded))) incompatible = true;
